@@ -343,4 +343,144 @@ Section FailExpr.
   (* conditions, scan subjects, loop lists *)
   Lemma leager_fail fuel le ll e lf : fexpr' e -> env_rel' le ll -> enok (eval' fuel le e) (leager t fl glob call lf ll e).
   Proof. intros Hf Henv. unfold leager. apply eager_fail. apply eval_fail; assumption. Qed.
+
+  (* ---------------- attributes ---------------- *)
+  Hypothesis Hsh : Forall (fun sh => All (fattr okfn m) (sh_attrs sh)) (f_shorthands fl).
+  Notation den_attrs := (den_attrs call).
+  Notation asim := (asim call).
+  Notation fattr' := (fattr okfn m).
+  Notation exec_attr' := (exec_attr t fl glob call).
+  Notation lexec_attr' := (lexec_attr t fl glob call).
+
+  (* the list of lazy attributes of a failing `attr`: a prefix that denotes the insertions made by the strict run on
+     the graph G, then a value that cannot be evaluated or whose insertion conflicts with the graph reached *)
+  Definition BdA (rhoK : list value) (tgt : target) (G : graph) (out : list (ident * lvalue)) : Prop :=
+    exists pre key lv post kvs G', out = pre ++ (key, lv) :: post /\ den_attrs rhoK pre kvs /\
+      apply_attrs (map (mk tgt) kvs) G = Some G' /\ (bad_lv rhoK lv \/ exists v, den rhoK lv v /\ conflict (mk tgt (key, v)) G').
+  Definition fpostA (tgt : target) (G : graph) (rho : list value) (ls : lstate) : list (ident * lvalue) -> lstate -> polls -> Prop :=
+    fun out ls' pl' => nob pl' /\ EFr ls ls' /\ exists rhoK dt, prefix rho rhoK /\ Jst rhoK dt (l_store ls') /\ (dt = None -> BdA rhoK tgt G out).
+  Definition afail (tgt : target) (ms : M sstate unit) (ml : M lstate (list (ident * lvalue))) : Prop :=
+    forall ss p e, ms ss p = Err e -> okerr e -> forall rho ls pl, Renv rho ss ls -> nob pl -> nres (ml ls pl) (fpostA tgt (s_graph ss) rho ls).
+
+  Lemma BdA_app_r rhoK tgt G out x : BdA rhoK tgt G out -> BdA rhoK tgt G (out ++ x).
+  Proof.
+    intros (pre & key & lv & post & kvs & G' & -> & H1 & H2 & H3). exists pre, key, lv, (post ++ x), kvs, G'.
+    split; [rewrite <- app_assoc; reflexivity|]. auto.
+  Qed.
+  Lemma BdA_app_l rhoK tgt G G1 out1 kvs1 out : den_attrs rhoK out1 kvs1 -> apply_attrs (map (mk tgt) kvs1) G = Some G1 ->
+    BdA rhoK tgt G1 out -> BdA rhoK tgt G (out1 ++ out).
+  Proof.
+    intros Hd Hg (pre & key & lv & post & kvs & G' & -> & H1 & H2 & H3). exists (out1 ++ pre), key, lv, post, (kvs1 ++ kvs), G'.
+    split; [rewrite <- app_assoc; reflexivity|]. split; [apply Forall2_app; assumption|]. split; [|exact H3].
+    rewrite map_app. eapply ofold_app_ok; eauto.
+  Qed.
+  Lemma fpostA_shift tgt G rho rho1 ls ls1 out ls2 pl2 :
+    lframe ls ls1 -> prefix rho rho1 -> fpostA tgt G rho1 ls1 out ls2 pl2 -> fpostA tgt G rho ls out ls2 pl2.
+  Proof.
+    intros Hf Hp (Hb & HF & rhoK & dt & Hp2 & HJ & HB). split; [exact Hb|]. split; [eapply EFr_trans; [apply lframe_EFr, Hf|exact HF]|].
+    exists rhoK, dt. split; [eapply prefix_trans; eauto|]. auto.
+  Qed.
+  Lemma fpostA_tail {C} tgt G rho ls out ls1 pl1 (kl : M lstate C) : fpostA tgt G rho ls out ls1 pl1 -> pfr kl ->
+    nres (kl ls1 pl1) (fun _ ls2 pl2 => fpostA tgt G rho ls out ls2 pl2).
+  Proof.
+    intros (Hb & HF & rhoK & dt & Hp & HJ & HB) Hk. eapply nres_mono; [apply (pfr_nres kl rhoK dt ls ls1 pl1 Hk Hb HJ HF)|].
+    intros c ls2 pl2 (Hb2 & HJ2 & HF2). split; [exact Hb2|]. split; [exact HF2|]. exists rhoK, dt. auto.
+  Qed.
+
+  Lemma attrs_fail tgt (exa : attr -> M sstate unit) (lexa : attr -> M lstate (list (ident * lvalue))) :
+    forall attrs, (forall a, In a attrs -> asim tgt (exa a) (lexa a)) -> (forall a, In a attrs -> afail tgt (exa a) (lexa a)) -> (forall a, pfr (lexa a)) ->
+    forall ss p e, iterM exa attrs ss p = Err e -> okerr e -> forall rho ls pl, Renv rho ss ls -> nob pl ->
+      nres (mapM lexa attrs ls pl) (fun outs ls' pl' => fpostA tgt (s_graph ss) rho ls (concat outs) ls' pl').
+  Proof.
+    induction attrs as [|a attrs IH]; intros Ha Hfl HP ss p e H Ho rho ls pl HR Hb; cbn [iterM mapM] in *; [discriminate|].
+    apply bind_err in H. destruct H as [H|(u1 & s1 & p1 & H1 & H2)].
+    - apply nres_bind. eapply nres_mono; [apply (Hfl a (or_introl eq_refl) _ _ _ H Ho rho ls pl HR Hb)|]. intros o1 ls1 pl1 HP1.
+      apply nres_bind. eapply nres_mono; [apply (fpostA_tail tgt _ rho ls o1 ls1 pl1 (mapM lexa attrs) HP1 (pfr_mapM _ _ HP))|].
+      intros outs ls2 pl2 (Hb2 & HF2 & rhoK & dt & Hp & HJ & HB). apply nres_ret. split; [exact Hb2|]. split; [exact HF2|]. exists rhoK, dt.
+      split; [exact Hp|]. split; [exact HJ|]. intros Hd. cbn [concat]. apply BdA_app_r, HB, Hd.
+    - apply nres_bind. apply nres_of_lres. eapply lres_mono; [apply (Ha a (or_introl eq_refl) _ _ _ _ _ H1 rho ls pl HR Hb)|].
+      intros o1 ls1 pl1 (Hb1 & Hf1 & rho1 & kvs1 & Hp1 & HR1 & Hd1 & Hg1).
+      apply nres_bind. eapply nres_mono; [apply (IH (fun a0 Hin => Ha a0 (or_intror Hin)) (fun a0 Hin => Hfl a0 (or_intror Hin)) HP _ _ _ H2 Ho rho1 ls1 pl1 HR1 Hb1)|].
+      intros outs ls2 pl2 HP2. apply nres_ret. eapply fpostA_shift; [exact Hf1|exact Hp1|].
+      destruct HP2 as (Hb2 & HF2 & rhoK & dt & Hp & HJ & HB). split; [exact Hb2|]. split; [exact HF2|]. exists rhoK, dt.
+      split; [exact Hp|]. split; [exact HJ|]. intros Hd. cbn [concat]. eapply BdA_app_l; [eapply den_attrs_mono; [exact Hp|exact Hd1]|exact Hg1|apply HB, Hd].
+  Qed.
+
+  Lemma add_attr_err tgt k v s p e : add_attr tgt k v s p = Err e -> okerr e -> conflict (mk tgt (k, v)) (s_graph s).
+  Proof.
+    unfold add_attr, bind, get_state. destruct tgt as [n|a b]; cbn [mk conflict fst snd].
+    - destruct (gnode_at (s_graph s) n) as [nd|]; [|discriminate]. unfold attrs_add.
+      destruct (alist_get k (g_attrs nd)) as [old|] eqn:E; [|discriminate]. destruct (value_eqb old v) eqn:Ev; [discriminate|].
+      intros _ _. exists nd, old. auto.
+    - destruct (gnode_at (s_graph s) a) as [nd|]; [|discriminate]. destruct (edges_get b (g_edges nd)) as [m0|] eqn:Ee.
+      + unfold attrs_add. destruct (alist_get k m0) as [old|] eqn:E; [|discriminate]. destruct (value_eqb old v) eqn:Ev; [discriminate|].
+        intros _ _. exists nd, m0, old. auto.
+      + intros H Ho. inversion H; subst. contradiction.
+  Qed.
+
+  Lemma get_state_noerr {S} (s : S) p e : get_state s p <> Err e. Proof. discriminate. Qed.
+
+  Lemma attr_fail : forall fuel le ll tgt a, fattr' a -> env_rel' le ll -> forall lf, afail tgt (exec_attr' fuel le tgt a) (lexec_attr' lf ll a).
+  Proof.
+    induction fuel as [|fuel IH]; intros le ll tgt a Hf Henv lf ss p err H Ho rho ls pl HR Hb; [discriminate|].
+    destruct lf as [|lf]; [exact I|]. destruct a as [name value]. cbn [exec_attr] in H. cbn [lexec_attr fattr] in *.
+    apply bind_err in H. destruct H as [H|(u0 & s0 & p0 & H0 & H)]; [exfalso; eapply poll_okerr; eauto|].
+    apply poll_ok in H0. destruct H0 as (-> & -> & _).
+    apply nres_bind. unfold lpoll. apply nres_poll; [exact Hb|]. intros pl0 Hb0.
+    apply bind_err in H. destruct H as [H|(v & s1 & p1 & H1 & H)].
+    - (* the value fails *)
+      apply nres_bind. eapply nres_mono; [apply (eval_fail fuel le ll value Hf Henv lf _ _ _ H Ho rho ls pl0 HR Hb0)|].
+      intros lv ls1 pl1 (Hb1 & HF1 & rhoK & Hp & Hs & HB).
+      destruct (find_shorthand name (f_shorthands fl)) as [sh|] eqn:Esh.
+      + (* shorthand: the bad value is stored in a thunk that nothing may ever read *)
+        apply nres_get. apply nres_bind. rewrite set_llocals_eq. cbn [nres].
+        apply nres_bind. unfold lunscoped_add. destruct (globals_get glob (sh_var sh)); [exact I|].
+        apply nres_bind. rewrite store_add_eq. cbn [nres]. apply nres_get.
+        destruct (varmap_add (l_locals (set_store (l_store (lset_locals [[]] ls1) ++ [{| th_state := TUnforced lv; th_dbg := ll_ctx ll |}]) (lset_locals [[]] ls1)))
+                    (sh_var sh) (LVar (N.of_nat (length (l_store (lset_locals [[]] ls1))))) false) as [l1|e1]; [|exact I].
+        rewrite set_llocals_eq. cbn [nres]. cbn [lset_locals l_store set_store].
+        set (loc := length (l_store ls1)). set (th := {| th_state := TUnforced lv; th_dbg := ll_ctx ll |}).
+        assert (HJ : Jst rhoK (Some (loc, lv)) (l_store ls1 ++ [th])).
+        { split; [apply sbk_app, Hs|]. split; [apply (sbk_len call _ _ Hs)|]. split; [exact HB|]. exists (ll_ctx ll).
+          unfold loc. rewrite nth_error_app2, Nat.sub_diag by lia. reflexivity. }
+        match goal with |- nres (?k ?st pl1) _ => 
+          assert (Hk : pfr k) by (apply pfr_bind; [apply pfr_mapM; intros a0; apply pfr_lexec_attr|intros outs; apply pfr_bind; [apply pfr_set_llocals|intros _; apply pfr_ret]]);
+          assert (HFs : EFr ls st) by (eapply EFr_trans; [exact HF1|]; apply lframe_EFr; repeat split);
+          eapply nres_mono; [apply (pfr_nres k rhoK (Some (loc, lv)) ls st pl1 Hk Hb1 HJ HFs)|]
+        end.
+        intros out ls2 pl2 (Hb2 & HJ2 & HF2). split; [exact Hb2|]. split; [exact HF2|]. exists rhoK, (Some (loc, lv)).
+        split; [exact Hp|]. split; [exact HJ2|]. discriminate.
+      + apply nres_ret. split; [exact Hb1|]. split; [exact HF1|]. exists rhoK, None. split; [exact Hp|]. split; [apply Jst_none, Hs|]. intros _.
+        exists [], name, lv, [], [], (s_graph ss). split; [reflexivity|]. split; [constructor|]. split; [reflexivity|]. left. exact HB.
+    - (* the value is evaluated; the insertion fails *)
+      apply nres_bind. apply nres_of_lres.
+      eapply lres_mono; [apply (eval_sim t fl glob call okfn Hpure m fuel le ll value Hf Henv lf _ _ _ _ _ H1 rho ls pl0 HR Hb0)|].
+      intros lv ls1 pl1 (Hb1 & [Sg1 Sp1] & Hf1 & rho1 & Hp1 & HR1 & Hd1).
+      destruct (find_shorthand name (f_shorthands fl)) as [sh|] eqn:Esh.
+      + apply bind_err in H. destruct H as [H|(sg & s1' & p1' & G & H)]; [exfalso; eapply get_state_noerr; eauto|]. apply get_ok in G. destruct G as (-> & -> & ->).
+        apply bind_err in H. destruct H as [H|(u2 & s2 & p2 & H2 & H)]; [rewrite set_locals_eq in H; discriminate|]. rewrite set_locals_eq in H2. inversion H2; subst; clear H2.
+        apply nres_get. apply nres_bind. rewrite set_llocals_eq. cbn [nres].
+        assert (HR2 : Renv rho1 (sset_locals [[]] s1) (lset_locals [[]] ls1)).
+        { destruct HR1 as [A1 A2]. split; [exact A1|]. constructor; [constructor|constructor]. }
+        apply bind_err in H. destruct H as [H|(u3 & s3 & p3 & H3 & H)].
+        * apply nok_nres. apply nok_bind. apply (unscoped_add_fail ll (sh_var sh) v lv false _ _ _ H Ho rho1 _ pl1 HR2 Hb1).
+        * apply nres_bind. apply nres_of_lres.
+          eapply lres_mono; [apply (unscoped_add_sim glob call ll (sh_var sh) v lv false _ _ _ _ _ rho1 _ pl1 H3 HR2 Hd1 Hb1)|].
+          intros _ ls3 pl3 (Hb3 & [Sg3 Sp3] & Hf3 & rho3 & Hp3 & HR3 & _).
+          apply bind_err in H. destruct H as [H|(u4 & s4 & p4 & H4 & H5)]; [|rewrite set_locals_eq in H5; discriminate].
+          assert (Hin : forall a0, In a0 (sh_attrs sh) -> fattr' a0).
+          { intros a0 Hin0. rewrite Forall_forall in Hsh. apply (All_In _ _ _ (Hsh sh (find_shorthand_In _ _ _ Esh)) Hin0). }
+          apply nres_bind.
+          eapply nres_mono; [apply (attrs_fail tgt _ _ (sh_attrs sh)
+                                     (fun a0 Hin0 => attr_sim t fl glob call okfn Hpure m Hsh fuel le ll tgt a0 (Hin a0 Hin0) Henv lf)
+                                     (fun a0 Hin0 => IH le ll tgt a0 (Hin a0 Hin0) Henv lf) (fun a0 => pfr_lexec_attr lf ll a0) _ _ _ H Ho rho3 ls3 pl3 HR3 Hb3)|].
+          intros outs ls4 pl4 HP4. apply nres_bind. rewrite set_llocals_eq. cbn [nres]. apply nres_ret.
+          cbn [sset_locals s_graph] in *. rewrite Sg3, Sg1 in HP4.
+          eapply fpostA_shift; [eapply lframe_trans; [exact Hf1|]; eapply lframe_trans; [apply lframe_set_locals|exact Hf3]|eapply prefix_trans; [exact Hp1|exact Hp3]|].
+          destruct HP4 as (Hb4 & HF4 & rhoK & dt & Hp & HJ & HB). split; [exact Hb4|]. split; [eapply EFr_trans; [exact HF4|apply lframe_EFr, lframe_set_locals]|].
+          exists rhoK, dt. auto.
+      + pose proof (add_attr_err _ _ _ _ _ _ H Ho) as Hc. rewrite Sg1 in Hc. apply nres_ret.
+        split; [exact Hb1|]. split; [apply lframe_EFr, Hf1|]. exists rho1, None. split; [exact Hp1|]. split; [apply Jst_none, (Renv_sbk _ _ _ HR1)|]. intros _.
+        exists [], name, lv, [], [], (s_graph ss). split; [reflexivity|]. split; [constructor|]. split; [reflexivity|]. right. exists v. auto.
+  Qed.
 End FailExpr.
